@@ -788,3 +788,106 @@ def all_nonneg_poly(e):
     except Exception:
         return False
     return all(c >= 0 for c in p.coeffs())
+
+
+# ---------------------------------------------------------------------------------------------
+# R-ELEN: 1 <= effective_len <= len by two inductive polynomial invariants
+
+
+def _nonneg_in_slacks(expr, slacks):
+    """expr (sympy, positive symbols) is >= 0: as a polynomial in the slack symbols every coefficient
+    is, after cancellation, a ratio whose denominator has non-negative coefficients and whose
+    numerator has non-negative coefficients or is a positive constant times even powers"""
+    import sympy as sp
+    expr = sp.together(sp.expand(expr))
+    num, den = sp.fraction(sp.cancel(expr))
+    if not all_nonneg_poly(den):
+        return False
+    poly = sp.Poly(sp.expand(num), *slacks) if slacks else None
+    coeffs = poly.coeffs() if poly is not None else [sp.expand(num)]
+    for c in coeffs:
+        c = sp.expand(c)
+        if all_nonneg_poly(c):
+            continue
+        cst, facs = sp.factor_list(c)
+        if cst > 0 and all(ex % 2 == 0 for _, ex in facs):
+            continue
+        return False
+    return True
+
+
+def r_effective_len(ctx, db, est, scen):
+    """Invariants I1: n*S - W^2 >= 0 (Cauchy-Schwarz) and I2: W^2 - S >= 0 (weights >= 0), with
+    W = sum of weights, S = sum of squared weights, n = len: established by new(), preserved by
+    add (w >= 0) and merge.  With effective_len = W^2/S (decided by L0) they give 1 <= effective_len <= len."""
+    import d7
+    import sympy as sp
+    accs = scen["acc"]
+    if "sum_weights" not in accs or "sum_weights_sq" not in accs:
+        return 0
+
+    def leaf_of(name):
+        for pth in accs[name][1]:
+            if pth.status == "return" and is_float(pth.ret[0]) and pth.ret[0][0] == "atom":
+                return field_of(pth.ret[0][1])[6:]
+        return None
+    lw, ls = leaf_of("sum_weights"), leaf_of("sum_weights_sq")
+    ln = R.count_leaf(ctx, db, est)
+    if not (lw and ls and ln):
+        ctx.ob("R-ELEN", "leaves", est.path, "-", False, "cannot identify W, S, n leaves", inc=True)
+        return 0
+    n_ob = 0
+    for kind in ("add", "merge"):
+        for label, paths in scen[kind]:
+            if label == "empty":
+                continue
+            fn = est.add if kind == "add" else est.merge
+            for pth in paths:
+                if pth.status != "return":
+                    continue
+                init, fin = pth.ret[0], pth.ret[1]
+                cv = d7.Conv(positive=lambda nm: True, machine=pth.machine)
+                tA, tB, uA, uB = sp.symbols("tA tB uA uB", positive=True)
+
+                def sym(v):
+                    return cv.conv(F.i2f(v)) if is_int(v) else cv.conv(v)
+                W0, S0, n0 = sym(init[lw]), sym(init[ls]), sym(init[ln])
+                W1, S1, n1 = sym(fin[lw]), sym(fin[ls]), sym(fin[ln])
+                if not (W0.is_Symbol and S0.is_Symbol):
+                    continue
+                # data equalities of the path (e.g. "self has total weight 0")
+                eqsub = {}
+                for a_, b_ in pc_equalities(pth.pc).items():
+                    try:
+                        eqsub[cv.conv(a_)] = cv.conv(b_)
+                    except Exception:
+                        pass
+                # slacks: S0 = (tA + W0^2)/n0 for I1 ; S0 = W0^2 - uA for I2 (uA in [0, W0^2])
+                subs1 = {S0: (tA + W0 ** 2) / n0}
+                subs2 = {S0: W0 ** 2 - uA}
+                sl1, sl2 = [tA], [uA]
+                if kind == "merge":
+                    ib = pth.ret[2]
+                    WB, SB, nB = sym(ib[lw]), sym(ib[ls]), sym(ib[ln])
+                    subs1[SB] = (tB + WB ** 2) / nB
+                    subs2[SB] = WB ** 2 - uB
+                    sl1.append(tB)
+                    sl2.append(uB)
+                e1 = (n1 * S1 - W1 ** 2).subs(subs1).subs(eqsub)
+                e2 = (W1 ** 2 - S1).subs(subs2).subs(eqsub)
+                if eqsub:
+                    # with W = 0 the invariant I2 forces S = 0 as well (slack u = W^2 - S in [0, W^2])
+                    for k_, v_ in list(eqsub.items()):
+                        if v_ == 0 and k_ == W0:
+                            e2 = e2.subs({uA: 0})
+                            e1 = e1.subs({tA: 0}) if False else e1
+                ok1 = _nonneg_in_slacks(e1, sl1)
+                ok2 = _nonneg_in_slacks(e2, sl2)
+                n_ob += 1
+                ctx.ob("R-ELEN", "%s:cauchy-schwarz" % kind, fn, R.fn_site(db, fn), ok1,
+                       "%s (%s) preserves n*sum(w^2) - (sum w)^2 >= 0: the new value is %s" % (kind, label, sp.factor(sp.together(e1)) if ok1 else "not of a visibly non-negative form: %s" % sp.simplify(e1)),
+                       d7=True)
+                ctx.ob("R-ELEN", "%s:lower" % kind, fn, R.fn_site(db, fn), ok2,
+                       "%s (%s) preserves (sum w)^2 - sum(w^2) >= 0 for weights >= 0: %s" % (kind, label, sp.expand(e2) if ok2 else "not of a visibly non-negative form: %s" % sp.simplify(e2)),
+                       d7=True)
+    return n_ob
